@@ -674,7 +674,8 @@ def fold(mod):
 def normalize(mod, rel, src_root):
     inl = Inliner(mod, rel, src_root)
     inl.run()
-    return mod, inl.log
+    log = inl.log + substitute_reference(mod, rel)
+    return mod, log
 
 
 if __name__ == "__main__":
@@ -682,9 +683,467 @@ if __name__ == "__main__":
         root = sys.argv[2] if len(sys.argv) > 2 else "/repo/src/foolscap"
         json.dump(make_known(root), open(KNOWN_PATH, "w"), indent=0, sort_keys=True)
         print("wrote", KNOWN_PATH)
+        import shutil
+        ref = os.path.join(HERE, "ref_src")
+        shutil.rmtree(ref, ignore_errors=True)
+        for p in package_files(root):
+            dst = os.path.join(ref, os.path.relpath(p, root))
+            os.makedirs(os.path.dirname(dst), exist_ok=True)
+            shutil.copy(p, dst)
+        print("copied the reference sources to", ref)
     else:
         root, rel = sys.argv[1], sys.argv[2]
         m = ast.parse(open(os.path.join(root, rel)).read())
         m, log = normalize(m, rel, root)
         print("\n".join(log))
         print(ast.unparse(m))
+
+
+# ====================================================================================================
+# Reference equivalence: a function whose canonical form equals the canonical form of its version in the
+# reference tree (translate/ref_src, a copy of the package made by --make-known) is replaced by the reference
+# version before the translators run.  The canonical form is reached by rewrites that preserve behaviour for
+# every input (no assumption about the types of values):
+#   C1  docstrings dropped; `return None` = `return`; a trailing bare return dropped
+#   C2  consecutive terminal guards with identical bodies are merged:  if a: T / if b: T  ->  if a or b: T
+#   C3  statements after an `if` whose body always leaves (return/raise/continue/break) become its else-branch
+#   C4  if a: (if b: X)  with no else on either  ->  if a and b: X ;  nested and/or flattened
+#   C5  not (a or b) -> not a and not b ;  not (a and b) -> not a or not b     (same evaluation order, same booleans)
+#   C6  x = A if c else B  ->  if c: x = A else: x = B ;  return A if c else B  likewise
+#   C7  a local assigned once and read once, in the next statement `target = t` / `return t`, is forwarded
+#   C8  locals (including nested function names) are renamed in order of first occurrence
+# Parameter names, defaults and decorators must be identical (callers may pass keywords).
+REF_DIR = os.path.join(HERE, "ref_src")
+
+
+def _terminal(stmts):
+    return bool(stmts) and isinstance(stmts[-1], (ast.Return, ast.Raise, ast.Continue, ast.Break))
+
+
+def _always_leaves(stmts):
+    if not stmts:
+        return False
+    last = stmts[-1]
+    if isinstance(last, (ast.Return, ast.Raise, ast.Continue, ast.Break)):
+        return True
+    if isinstance(last, ast.If):
+        return _always_leaves(last.body) and _always_leaves(last.orelse)
+    return False
+
+
+def _flat_bool(op, values):
+    out = []
+    for v in values:
+        if isinstance(v, ast.BoolOp) and isinstance(v.op, type(op)):
+            out += v.values
+        else:
+            out.append(v)
+    return ast.BoolOp(op=op, values=out)
+
+
+class _ExprCanon(ast.NodeTransformer):
+    def visit_UnaryOp(self, node):
+        self.generic_visit(node)
+        if isinstance(node.op, ast.Not) and isinstance(node.operand, ast.UnaryOp) and isinstance(node.operand.op, ast.Not) \
+                and _is_boolish(node.operand.operand):
+            return node.operand.operand
+        if isinstance(node.op, ast.Not) and isinstance(node.operand, ast.Compare) and len(node.operand.ops) == 1 and \
+                isinstance(node.operand.ops[0], (ast.In, ast.NotIn, ast.Is, ast.IsNot)):
+            return _negate(node.operand)
+        if isinstance(node.op, ast.Not) and isinstance(node.operand, ast.BoolOp):
+            inner = node.operand
+            newop = ast.And() if isinstance(inner.op, ast.Or) else ast.Or()
+            vals = [self.visit(ast.UnaryOp(op=ast.Not(), operand=v)) for v in inner.values]
+            return _flat_bool(newop, vals)
+        return node
+
+    def visit_BoolOp(self, node):
+        self.generic_visit(node)
+        return _flat_bool(node.op, node.values)
+
+    def visit_FunctionDef(self, node):
+        return node          # nested functions are canonicalised by canon_block through their own bodies
+
+    visit_Lambda = visit_ClassDef = visit_AsyncFunctionDef = visit_FunctionDef
+
+
+def _canon_exprs(stmt):
+    for field, old in ast.iter_fields(stmt):
+        if isinstance(old, ast.expr):
+            setattr(stmt, field, _ExprCanon().visit(old))
+        elif isinstance(old, list) and old and isinstance(old[0], ast.expr):
+            old[:] = [_ExprCanon().visit(x) for x in old]
+    return stmt
+
+
+def canon_block(stmts, tail=False):
+    """tail: nothing of the function runs after this block (so a final bare `return` is the same as falling off its end)"""
+    # C1
+    stmts = [s for s in strip_doc(list(stmts))]
+    out = []
+    for s in stmts:
+        s = _canon_exprs(s)
+        # C6
+        if isinstance(s, ast.Assign) and len(s.targets) == 1 and isinstance(s.value, ast.IfExp):
+            s = ast.If(test=s.value.test, body=[ast.Assign(targets=[copy.deepcopy(s.targets[0])], value=s.value.body)],
+                       orelse=[ast.Assign(targets=[copy.deepcopy(s.targets[0])], value=s.value.orelse)])
+        elif isinstance(s, ast.Return) and isinstance(s.value, ast.IfExp):
+            s = ast.If(test=s.value.test, body=[ast.Return(value=s.value.body)], orelse=[ast.Return(value=s.value.orelse)])
+        if isinstance(s, ast.Return) and isinstance(s.value, ast.Constant) and s.value.value is None:
+            s = ast.Return(value=None)
+        # recurse
+        if isinstance(s, (ast.FunctionDef, ast.AsyncFunctionDef)):
+            s.body = canon_function_body(s.body)
+        else:
+            is_last = s is stmts[-1]
+            for field in ("body", "orelse", "finalbody"):
+                sub = getattr(s, field, None)
+                if isinstance(sub, list) and sub and isinstance(sub[0], ast.stmt):
+                    setattr(s, field, canon_block(sub, tail and is_last and isinstance(s, ast.If)))
+            if isinstance(s, ast.Try):
+                for h in s.handlers:
+                    h.body = canon_block(h.body)
+        out.append(s)
+    # C2: merge consecutive terminal guards with identical bodies
+    merged = []
+    for s in out:
+        if merged and isinstance(s, ast.If) and not s.orelse and isinstance(merged[-1], ast.If) and not merged[-1].orelse \
+                and _terminal(s.body) and ast.dump(ast.Module(body=s.body, type_ignores=[])) == ast.dump(ast.Module(body=merged[-1].body, type_ignores=[])):
+            merged[-1] = ast.If(test=_flat_bool(ast.Or(), [merged[-1].test, s.test]), body=merged[-1].body, orelse=[])
+        else:
+            merged.append(s)
+    out = merged
+    # C3: else-nesting
+    res = []
+    for i, s in enumerate(out):
+        if isinstance(s, ast.If) and _always_leaves(s.body) and i + 1 < len(out):
+            rest = canon_block(s.orelse + out[i + 1:], tail) if s.orelse else canon_block(out[i + 1:], tail)
+            body = canon_block(s.body, tail) if tail else s.body
+            s = ast.If(test=s.test, body=body, orelse=rest)
+            res.append(_tail_if(_c4(s), tail))
+            return _finish(res, tail)
+        res.append(_tail_if(_c4(s), tail and i == len(out) - 1) if isinstance(s, ast.If) else s)
+    # C7: temp forwarding (needs the enclosing function's use counts: done in canon_function_body)
+    return _finish(res, tail)
+
+
+def _finish(res, tail):
+    res = [x for x in res if not isinstance(x, ast.Pass)]
+    if tail and res and isinstance(res[-1], ast.Return) and res[-1].value is None:
+        res = res[:-1]
+    return res or [ast.Pass()]
+
+
+def _tail_if(s, tail):
+    """in tail position `if c: return` + else-branch E is `if not c: E`"""
+    if not tail or not isinstance(s, ast.If):
+        return s
+    empty = lambda b: all(isinstance(x, ast.Pass) for x in b)
+    if empty(s.body) and s.orelse and not empty(s.orelse):
+        return _c4(ast.If(test=_ExprCanon().visit(_negate(s.test)), body=s.orelse, orelse=[]))
+    if s.orelse and empty(s.orelse):
+        return ast.If(test=s.test, body=s.body, orelse=[])
+    return s
+
+
+def _is_boolish(e):
+    if isinstance(e, ast.Compare):
+        return True
+    if isinstance(e, ast.UnaryOp) and isinstance(e.op, ast.Not):
+        return True
+    if isinstance(e, ast.BoolOp):
+        return all(_is_boolish(v) for v in e.values)
+    if isinstance(e, ast.Constant) and isinstance(e.value, bool):
+        return True
+    return False
+
+
+def _negate(e):
+    """an expression with the opposite truth value, evaluating the same sub-expressions in the same order"""
+    if isinstance(e, ast.UnaryOp) and isinstance(e.op, ast.Not):
+        return e.operand        # used in test position only: truthiness is all that matters
+    if isinstance(e, ast.Compare) and len(e.ops) == 1 and isinstance(e.ops[0], (ast.NotIn, ast.In, ast.Is, ast.IsNot)):
+        flip = {ast.NotIn: ast.In, ast.In: ast.NotIn, ast.Is: ast.IsNot, ast.IsNot: ast.Is}[type(e.ops[0])]
+        return ast.Compare(left=e.left, ops=[flip()], comparators=e.comparators)
+    if isinstance(e, ast.BoolOp):
+        newop = ast.And() if isinstance(e.op, ast.Or) else ast.Or()
+        return _flat_bool(newop, [_negate(v) for v in e.values])
+    return ast.UnaryOp(op=ast.Not(), operand=e)
+
+
+def _neg_weight(e):
+    """number of negations at the top of a test: the canonical orientation of a two-branch `if` has the fewer"""
+    if isinstance(e, ast.UnaryOp) and isinstance(e.op, ast.Not):
+        return 1
+    if isinstance(e, ast.Compare) and len(e.ops) == 1 and isinstance(e.ops[0], (ast.NotIn, ast.IsNot)):
+        return 1
+    if isinstance(e, ast.BoolOp):
+        return sum(_neg_weight(v) for v in e.values) / float(len(e.values))
+    return 0
+
+
+def _orient(s):
+    """C9: `if not X: A else: B` -> `if X: B else: A` (also `not in` / `is not`); ties are left alone"""
+    if isinstance(s, ast.If) and s.orelse and s.body:
+        n = _negate(s.test)
+        if _neg_weight(n) < _neg_weight(s.test):
+            return ast.If(test=_ExprCanon().visit(n), body=s.orelse, orelse=s.body)
+    return s
+
+
+def _c4(s):
+    s = _orient(s)
+    while isinstance(s, ast.If) and not s.orelse and len(s.body) == 1 and isinstance(s.body[0], ast.If) and not s.body[0].orelse:
+        s = ast.If(test=_flat_bool(ast.And(), [s.test, s.body[0].test]), body=s.body[0].body, orelse=[])
+    return s
+
+
+def _forward_temps(body, fn_nodes):
+    """C7 on every statement list of the function"""
+    loads, stores = {}, {}
+    for n in fn_nodes:
+        if isinstance(n, ast.Name):
+            d = loads if isinstance(n.ctx, ast.Load) else stores
+            d[n.id] = d.get(n.id, 0) + 1
+        elif isinstance(n, ast.arg):
+            stores[n.arg] = stores.get(n.arg, 0) + 2
+
+    # a temporary may be forwarded when ALL its occurrences are (store, single load in the next statement) pairs and the
+    # load is the first thing the next statement evaluates
+    pairs = {}
+
+    def first_leaf(e):
+        while True:
+            if isinstance(e, ast.Call):
+                e = e.func
+            elif isinstance(e, (ast.Attribute, ast.Subscript, ast.Starred)):
+                e = e.value
+            elif isinstance(e, (ast.BinOp, ast.Compare)):
+                e = e.left
+            elif isinstance(e, ast.BoolOp):
+                e = e.values[0]
+            elif isinstance(e, ast.UnaryOp):
+                e = e.operand
+            elif isinstance(e, ast.IfExp):
+                e = e.test
+            elif isinstance(e, (ast.Tuple, ast.List)) and e.elts:
+                e = e.elts[0]
+            else:
+                return e
+
+    def head_expr(st):
+        if isinstance(st, (ast.Expr, ast.Return)) and st.value is not None:
+            return st.value
+        if isinstance(st, ast.Assign) and len(st.targets) == 1:
+            return st.value
+        if isinstance(st, ast.If):
+            return st.test
+        return None
+
+    def count_pairs(stmts):
+        for i, s in enumerate(stmts):
+            nxt = stmts[i + 1] if i + 1 < len(stmts) else None
+            if isinstance(s, ast.Assign) and len(s.targets) == 1 and isinstance(s.targets[0], ast.Name) and nxt is not None:
+                t = s.targets[0].id
+                h = head_expr(nxt)
+                if h is not None:
+                    leaf = first_leaf(h)
+                    nl = sum(1 for n in ast.walk(nxt) if isinstance(n, ast.Name) and n.id == t and isinstance(n.ctx, ast.Load)) \
+                        if not isinstance(nxt, ast.If) else sum(1 for n in ast.walk(nxt.test) if isinstance(n, ast.Name) and n.id == t)
+                    later_in_if = isinstance(nxt, ast.If) and any(isinstance(n, ast.Name) and n.id == t for b in (nxt.body, nxt.orelse) for x in b for n in ast.walk(x))
+                    tgt_uses = isinstance(nxt, ast.Assign) and t in names_in(nxt.targets)
+                    if isinstance(leaf, ast.Name) and leaf.id == t and nl == 1 and not later_in_if and not tgt_uses \
+                            and t not in names_in([s.value]):
+                        pairs[t] = pairs.get(t, 0) + 1
+            for field in ("body", "orelse", "finalbody"):
+                sub = getattr(s, field, None)
+                if isinstance(sub, list) and sub and isinstance(sub[0], ast.stmt) and not isinstance(s, (ast.FunctionDef, ast.ClassDef, ast.AsyncFunctionDef)):
+                    count_pairs(sub)
+            if isinstance(s, ast.Try):
+                for h2 in s.handlers:
+                    count_pairs(h2.body)
+    count_pairs(body)
+    ok_t = {t for t, k in pairs.items() if loads.get(t, 0) == k and stores.get(t, 0) == k}
+
+    class Put(ast.NodeTransformer):
+        def __init__(self, t, e):
+            self.t, self.e, self.done = t, e, False
+
+        def visit_Name(self, n):
+            if n.id == self.t and isinstance(n.ctx, ast.Load) and not self.done:
+                self.done = True
+                return self.e
+            return n
+
+    def fw(stmts):
+        out = []
+        i = 0
+        while i < len(stmts):
+            s = stmts[i]
+            nxt = stmts[i + 1] if i + 1 < len(stmts) else None
+            if isinstance(s, ast.Assign) and len(s.targets) == 1 and isinstance(s.targets[0], ast.Name) and nxt is not None \
+                    and s.targets[0].id in ok_t and head_expr(nxt) is not None:
+                t = s.targets[0].id
+                leaf = first_leaf(head_expr(nxt))
+                if isinstance(leaf, ast.Name) and leaf.id == t:
+                    pt = Put(t, s.value)
+                    if isinstance(nxt, ast.If):
+                        nxt.test = pt.visit(nxt.test)
+                    else:
+                        nxt.value = pt.visit(nxt.value)
+                    stmts = stmts[:i] + stmts[i + 1:]
+                    continue
+            for field in ("body", "orelse", "finalbody"):
+                sub = getattr(s, field, None)
+                if isinstance(sub, list) and sub and isinstance(sub[0], ast.stmt) and not isinstance(s, (ast.FunctionDef, ast.ClassDef, ast.AsyncFunctionDef)):
+                    setattr(s, field, fw(sub))
+            if isinstance(s, ast.Try):
+                for h in s.handlers:
+                    h.body = fw(h.body)
+            out.append(s)
+            i += 1
+        return out
+    return fw(body)
+
+
+def canon_function_body(body):
+    return canon_block(copy.deepcopy(body), True)
+
+
+def canon_function(fn):
+    """canonical text of a function (see C1..C8), or None when the function uses constructs the renaming cannot handle"""
+    f = copy.deepcopy(fn)
+    for n in ast.walk(f):
+        if isinstance(n, ast.Name) and n.id in ("locals", "vars", "eval", "exec", "globals"):
+            return None
+    f.body = canon_function_body(f.body)
+    f.body = _forward_temps(f.body, list(ast.walk(ast.Module(body=f.body, type_ignores=[]))) + list(ast.walk(f.args)))
+    f.body = canon_function_body(f.body)
+    # C8 alpha-renaming of locals
+    params = {a.arg for a in f.args.args + f.args.kwonlyargs + f.args.posonlyargs} | ({f.args.vararg.arg} if f.args.vararg else set()) \
+        | ({f.args.kwarg.arg} if f.args.kwarg else set())
+    glob = set()
+    for n in ast.walk(f):
+        if isinstance(n, (ast.Global, ast.Nonlocal)):
+            glob |= set(n.names)
+    # nested scopes: parameters of nested functions / lambdas shadow; leave every name that is a parameter of a nested scope alone
+    nested_params = set()
+    for n in ast.walk(f):
+        if n is not f and isinstance(n, (ast.FunctionDef, ast.AsyncFunctionDef, ast.Lambda)):
+            a = n.args
+            nested_params |= {x.arg for x in a.args + a.kwonlyargs + a.posonlyargs}
+            if a.vararg:
+                nested_params.add(a.vararg.arg)
+            if a.kwarg:
+                nested_params.add(a.kwarg.arg)
+    bound = set()
+    for n in ast.walk(ast.Module(body=f.body, type_ignores=[])):
+        if isinstance(n, ast.Name) and isinstance(n.ctx, (ast.Store, ast.Del)):
+            bound.add(n.id)
+        elif isinstance(n, (ast.FunctionDef, ast.AsyncFunctionDef, ast.ClassDef)):
+            bound.add(n.name)
+        elif isinstance(n, ast.ExceptHandler) and n.name:
+            bound.add(n.name)
+        elif isinstance(n, (ast.Import, ast.ImportFrom)):
+            return None
+    ren = bound - params - glob - nested_params
+    order = []
+
+    class Order(ast.NodeVisitor):
+        def visit_Name(self, n):
+            if n.id in ren and n.id not in order:
+                order.append(n.id)
+
+        def visit_FunctionDef(self, n):
+            if n.name in ren and n.name not in order:
+                order.append(n.name)
+            self.generic_visit(n)
+
+        visit_AsyncFunctionDef = visit_ClassDef = visit_FunctionDef
+
+        def visit_ExceptHandler(self, n):
+            if n.name and n.name in ren and n.name not in order:
+                order.append(n.name)
+            self.generic_visit(n)
+
+        def visit_Assign(self, n):
+            # value first (it is evaluated first), then targets: a stable order under temp forwarding
+            self.visit(n.value)
+            for t in n.targets:
+                self.visit(t)
+    for s in f.body:
+        Order().visit(s)
+    mapping = {nm: "_v%d" % i for i, nm in enumerate(order)}
+    allnames = {n.id for n in ast.walk(f) if isinstance(n, ast.Name)}
+    if any(v in allnames for v in mapping.values()):
+        return None
+
+    class Ren(ast.NodeTransformer):
+        def visit_Name(self, n):
+            if n.id in mapping:
+                return ast.copy_location(ast.Name(id=mapping[n.id], ctx=n.ctx), n)
+            return n
+
+        def visit_FunctionDef(self, n):
+            self.generic_visit(n)
+            if n.name in mapping:
+                n.name = mapping[n.name]
+            return n
+
+        visit_AsyncFunctionDef = visit_ClassDef = visit_FunctionDef
+
+        def visit_ExceptHandler(self, n):
+            self.generic_visit(n)
+            if n.name and n.name in mapping:
+                n.name = mapping[n.name]
+            return n
+    f.body = [Ren().visit(s) for s in f.body]
+    ast.fix_missing_locations(f)
+    try:
+        return ast.unparse(f)
+    except Exception:
+        return None
+
+
+def _functions(mod):
+    """{qualname: (container list, index, node)} for module functions and methods of module-level classes"""
+    out = {}
+    for i, st in enumerate(mod.body):
+        if isinstance(st, ast.FunctionDef):
+            out[st.name] = (mod.body, i, st)
+        elif isinstance(st, ast.ClassDef):
+            for j, s2 in enumerate(st.body):
+                if isinstance(s2, ast.FunctionDef):
+                    out[st.name + "." + s2.name] = (st.body, j, s2)
+    return out
+
+
+_ref_cache = {}
+
+
+def reference_module(rel):
+    if rel not in _ref_cache:
+        p = os.path.join(REF_DIR, rel)
+        _ref_cache[rel] = ast.parse(open(p).read()) if os.path.exists(p) else None
+    return _ref_cache[rel]
+
+
+def substitute_reference(mod, rel):
+    ref = reference_module(rel)
+    log = []
+    if ref is None:
+        return log
+    cur_f, ref_f = _functions(mod), _functions(ref)
+    for q, (lst, idx, fn) in cur_f.items():
+        if q not in ref_f:
+            continue
+        rfn = ref_f[q][2]
+        if ast.dump(fn) == ast.dump(rfn):
+            continue
+        if ast.dump(fn.args) != ast.dump(rfn.args) or [ast.dump(d) for d in fn.decorator_list] != [ast.dump(d) for d in rfn.decorator_list]:
+            continue
+        a, b = canon_function(fn), canon_function(rfn)
+        if a is not None and a == b:
+            lst[idx] = copy.deepcopy(rfn)
+            log.append("%s is equivalent to its reference version (canonical forms coincide): reference text used" % q)
+    return log
